@@ -1,1 +1,39 @@
-From Olareg Require Import Base Index Reg.
+(* Props_C02.v — acknowledged pushes read back byte-identical until deleted.
+   Blob part proved over Reg.v; the manifest part additionally rests on the index
+   refinement of C18 (lookup by digest succeeds iff the digest is present). *)
+From Olareg Require Import Base Index Reg RegProofs RegProofs2 IndexProofs.
+Local Open Scope list_scope.
+
+(* A stored blob stays stored with the same bytes through every client request except a blob
+   delete of that very digest in that very repository.  [hash_inj]: no two different contents in
+   play share a digest (an upload without expected digest overwrites by name, in the code too). *)
+Theorem C02_blob_persists : forall cfg E s q r d c,
+  hash_inj E -> BlobsOK E s -> raw_not_resp d ->
+  stored cfg s r d c -> client_req q = true -> q <> QBlobDelete r d ->
+  stored cfg (fst (step cfg E s q)) r d c.
+Proof. exact stored_persists. Qed.
+Print Assumptions C02_blob_persists.
+
+(* reading it back: 200 (206 for a range), the digest header, exactly the stored bytes *)
+Theorem C02_blob_read_back : forall cfg E s r d c rng,
+  stored cfg s r d c -> dvalid d = true -> repo_allowed cfg r = true ->
+  let res := run cfg E (h_blob_get E r d rng) s in
+  fst res = s /\ rs_status (snd res) = (match rng with Some _ => 206 | None => 200 end)%Z
+  /\ rs_digest (snd res) = d /\ rs_body (snd res) = BoBlob (BRaw c) rng.
+Proof. exact stored_read_back. Qed.
+Print Assumptions C02_blob_read_back.
+
+(* a manifest larger than the limit is never acknowledged (known or unknown length) *)
+Theorem C02_limit : forall cfg E r arg ctype clen dq body s s' o,
+  run cfg E (h_manifest_put cfg E r arg ctype clen dq body) s = (s', o) ->
+  rs_status o = 201%Z -> (e_len E body >? c_mlimit cfg)%Z = false.
+Proof. intros. eapply (manifest_put_accept_sound cfg E r arg ctype clen dq body s s' o); eauto. Qed.
+Print Assumptions C02_limit.
+
+(* lookup by digest in the index succeeds exactly for digests at top level or recorded as children *)
+Theorem C02_manifest_lookup : forall arg i,
+  is_tag arg = false -> dvalid arg = true ->
+  ((exists d, get_desc arg i = Some d) <->
+   Exists (fun e => d_dig e = arg) (top i) \/ Exists (fun e => d_dig e = arg) (child i)).
+Proof. exact get_desc_digest_iff. Qed.
+Print Assumptions C02_manifest_lookup.
